@@ -54,7 +54,7 @@ def gen_cases(tier):
             for name in (names if tier == "thorough" or tk in ("t1", "t2") else names[:3]):
                 for ts in TSTATES:
                     for dump in (False, True):
-                        for si in (0, 1):
+                        for si in (range(len(SETTINGS)) if (name == "a.sql" and enc in ("utf-8", "utf-16")) else (0, 1)):
                             cases.append({"kind": "api", "text": tk, "enc": enc, "name": name, "target": ts, "dump": dump, "settings": si})
     for kind in ("file", "dir", "missing"):
         for n in range(0, 5):
@@ -66,7 +66,10 @@ def gen_cases(tier):
     return cases
 
 
-SETTINGS = [({}, "sql"), ({"normalize_names": True}, "hql")]
+# (parser_settings, run() keyword arguments passed through parse_from_file)
+SETTINGS = [({}, {"output_mode": "sql"}), ({"normalize_names": True}, {"output_mode": "hql"}), ({}, {"group_by_type": True}),
+            ({"silent": False}, {"json_dump": True}), ({}, {"output_mode": "bigquery", "group_by_type": True, "json_dump": True}),
+            ({"normalize_names": True, "silent": True}, {})]
 
 
 def tree(path):
@@ -83,7 +86,8 @@ def api_case(case):
 
     text = TEXTS[case["text"]]
     enc, name, ts, dump = case["enc"], case["name"], case["target"], case["dump"]
-    settings, mode = SETTINGS[case["settings"]]
+    settings, runkw = SETTINGS[case["settings"]]
+    settings = dict(settings)
     D = []
     d = tempfile.mkdtemp(prefix="c19_", dir=sut.scratch_base())
     cwd = os.getcwd()
@@ -102,11 +106,12 @@ def api_case(case):
         base = name.split(".")[0]
         if ts == "stale":
             open(os.path.join(tgt, base + "_schema.json"), "w").write("STALE")
-        exp = norm(DDLParser(text, **settings).run(output_mode=mode))
+        exp = norm(DDLParser(text, **settings).run(**runkw))
+        exp_file = norm(DDLParser(text, **settings).run(**{k: v for k, v in runkw.items() if k != "json_dump"}))  # the dump holds the data, not a JSON string of it
         before_src = tree(src)
         settings_copy = dict(settings)
         try:
-            r = norm(parse_from_file(fp, encoding=enc, parser_settings=settings, dump=dump, dump_path=tgt, output_mode=mode))
+            r = norm(parse_from_file(fp, encoding=enc, parser_settings=settings, dump=dump, dump_path=tgt, **runkw))
         except Exception as e:  # noqa
             return [diff("parse_from_file", "raises:" + type(e).__name__, "result", str(e)[:120])]
         if r != exp:
@@ -126,8 +131,8 @@ def api_case(case):
                     got = json.loads(files[base + "_schema.json"])
                 except Exception:  # noqa
                     got = "<not json>"
-                if got != exp:
-                    D.append(diff("dump content", "dump-content-differs", short(exp, 200), short(got, 200)))
+                if got != exp_file:
+                    D.append(diff("dump content", "dump-content-differs", short(exp_file, 200), short(got, 200)))
         else:
             if ts in ("missing", "nested") and os.path.exists(os.path.join(d, "out")):
                 D.append(diff("dump directory", "written-without-dump", "not created", sorted(files) or "directory created"))
@@ -283,8 +288,8 @@ def snippet(case):
     if case["kind"] == "api":
         s, m = SETTINGS[case["settings"]]
         return ("# write %r (encoding %s) to <dir>/%s, then\nfrom simple_ddl_parser import parse_from_file, DDLParser\n"
-                "r = parse_from_file(path, encoding=%r, parser_settings=%r, dump=%r, dump_path=<target %s>, output_mode=%r)\n"
-                "assert r == DDLParser(text, **%r).run(output_mode=%r)\n" % (TEXTS[case["text"]], case["enc"], case["name"], case["enc"], s, case["dump"], case["target"], m, s, m))
+                "r = parse_from_file(path, encoding=%r, parser_settings=%r, dump=%r, dump_path=<target %s>, **%r)\n"
+                "assert r == DDLParser(text, **%r).run(**%r)\n" % (TEXTS[case["text"]], case["enc"], case["name"], case["enc"], s, case["dump"], case["target"], m, s, m))
     if case["kind"] == "cli":
         return "# python -c 'from simple_ddl_parser.cli import main; main()' <%s> %s   in a directory holding the files %r" % (case["mode"], " ".join(case["flags"]), NAMES)
     return "# parse_from_file(<%s>, dump=True, dump_path=T) then parse_from_file(<%s>, dump=True, dump_path=T)" % tuple(case["names"])
